@@ -13,7 +13,7 @@ import (
 
 func init() {
 	seqChecks["c04"] = &seqCheck{run: runC04, replay: replayC04,
-		rule: "request kind {access,get,call.m,call.new,call.zz,auth.m,auth.zz} x registration {none, other handlers only, exact, *, new, no-access} x payload {empty, {}, full, malformed, isHttp} x every handler script of length<=3 (4 thorough) over 14 actions, each on a fresh real service under the scheduler (exact quiescence); oracles: C04 one response, C05 dispatch+mapping, C07 protocol shape, C18 client parsing; distinct = distinct (case, response class) pairs"}
+		rule: "request kind {access,get,call.m,call.new,call.zz,auth.m,auth.zz} x registration {none, other handlers only, exact, *, new, no-access} x payload {empty, {}, full, malformed, isHttp} x every handler script of length<=3 (4 thorough) over 14 actions (+ scripts of <=2 with an error wrapping a library error, a library error with a predefined code and its own message, a panic with a wrapping error), each on a fresh real service under the scheduler (exact quiescence); oracles: C04 one response, C05 dispatch+mapping, C07 protocol shape, C18 client parsing; distinct = distinct (case, response class) pairs"}
 }
 
 var c04Actions = []string{"ok", "err", "errplain", "notfound", "timeout", "event", "value", "panicErr", "panicPlain", "panicStr", "panic42", "panicNilErr", "setmeta", "resource"}
@@ -195,6 +195,19 @@ func c04Judge(c c04Case, emit func(prop, desc string)) string {
 				}
 			}
 		}
+		if class == "error:system.notFound" && firstReply(c.Script) == "errStd" {
+			var e struct {
+				Error struct {
+					Code, Message string
+					Data          map[string]int
+				}
+			}
+			json.Unmarshal([]byte(final[0]), &e)
+			if e.Error.Message != "User 42 not found" || e.Error.Data["id"] != 42 {
+				emit("C05", fmt.Sprintf("error value was not returned verbatim: %q", final[0]))
+				emit("C18", fmt.Sprintf("the response %q does not decode to the error the handler supplied (message \"User 42 not found\", data {id:42})", final[0]))
+			}
+		}
 		if class == "error:custom.error" {
 			var e struct {
 				Error struct {
@@ -218,7 +231,27 @@ func firstLineOf(s string) string {
 	return s
 }
 
+// c04Extra: further actions, enumerated in scripts of length <= 2 that contain at least one of them.
+var c04Extra = []string{"errwrap", "errStd", "panicWrap"}
+
 func c04Scripts(maxLen int, f func([]string) bool) {
+	if maxLen > 0 {
+		all := append(append([]string{}, c04Actions...), c04Extra...)
+		isExtra := func(a string) bool { return a == "errwrap" || a == "errStd" || a == "panicWrap" }
+		for _, a := range all {
+			if isExtra(a) && !f([]string{a}) {
+				return
+			}
+			if strings.HasPrefix(a, "panic") {
+				continue
+			}
+			for _, b := range all {
+				if (isExtra(a) || isExtra(b)) && !f([]string{a, b}) {
+					return
+				}
+			}
+		}
+	}
 	var rec func(cur []string) bool
 	rec = func(cur []string) bool {
 		if !f(cur) {
@@ -296,4 +329,18 @@ func replayC04(input string) []string {
 	var out []string
 	c04Judge(parseC04(input), func(prop, desc string) { out = append(out, prop+": "+desc) })
 	return out
+}
+
+// firstReply returns the first action of the script that sends a reply.
+func firstReply(script []string) string {
+	for _, a := range script {
+		switch a {
+		case "ok", "resource", "err", "errplain", "notfound", "errwrap", "errStd":
+			return a
+		}
+		if strings.HasPrefix(a, "panic") {
+			return a
+		}
+	}
+	return ""
 }
